@@ -5,6 +5,15 @@
 //! the operator uses; `op inv` applied forward must equal `op` applied inverse bit for bit.
 //! Generated: operator x aspect x parameters x ellipsoid (47 built-in + random a,rf) x
 //! batches of domain points; typed pipelines and macros; grid operators on GridCtx.
+//! Round values: the catalogue, the pipelines and the shipped grids are generated a second time
+//! in round-value mode (every parameter and coordinate draw snapped onto multiples of 15, 6, 1
+//! or 0.5 of its unit: whole and half degrees, zone edges, the central meridian / centre /
+//! standard parallel as coordinate, whole metres and years, grid nodes), where the
+//! inverse-then-forward order also starts from the round neighbours of the images (the image
+//! itself +-0..4 ulp for angles, whole metres in the plane); the carries of the sexagesimal
+//! encodings of dm / dms (every whole degree x minutes x seconds, +-4 ulp, reached in radians
+//! and via degrees, both signs, zero degrees) are enumerated in both orders, for the plain
+//! operators, their inv twins, as pipeline steps and as writers behind a degree input.
 
 use geodesy::prelude::*;
 use proptest::prelude::*;
@@ -40,6 +49,70 @@ fn lin(u: f64, lo: f64, hi: f64) -> f64 {
     lo + (hi - lo) * u
 }
 
+// ---- round-value mode ----------------------------------------------------------------
+// The generators below draw parameters and coordinates from continuous ranges: a random double
+// essentially never is a whole degree, the central meridian, a zone edge, a grid node, a whole
+// metre or a round epoch.  In round-value mode (a thread local switch, set only while the cases
+// of the round-value sections are built) every such draw is snapped onto the exactly
+// representable values users type: multiples of 15, 6, 1 or 0.5 inside the same range.
+thread_local! { static ROUND: std::cell::Cell<bool> = const { std::cell::Cell::new(false) }; }
+fn round_mode() -> bool {
+    ROUND.with(|r| r.get())
+}
+struct RoundGuard;
+impl Drop for RoundGuard {
+    fn drop(&mut self) {
+        ROUND.with(|r| r.set(false));
+    }
+}
+fn in_round_mode<T>(f: impl FnOnce() -> T) -> T {
+    ROUND.with(|r| r.set(true));
+    let _g = RoundGuard;
+    f()
+}
+/// a multiple of 15, 6, 1 or 0.5 within [lo, hi] (the plain linear map if the range holds less than two)
+fn snap_with(u: f64, lo: f64, hi: f64, steps: &[f64]) -> f64 {
+    let usable: Vec<f64> = steps.iter().copied().filter(|s| hi - lo >= 2.0 * s).collect();
+    if usable.is_empty() || !(hi > lo) {
+        return lin(u, lo, hi);
+    }
+    let w = (u * 7919.0).fract();
+    let step = usable[((w * usable.len() as f64) as usize).min(usable.len() - 1)];
+    let first = (lo / step).ceil();
+    let cnt = (hi / step).floor() - first + 1.0;
+    (first + (u * cnt).floor().min(cnt - 1.0)) * step
+}
+fn snap(u: f64, lo: f64, hi: f64) -> f64 {
+    snap_with(u, lo, hi, &[15.0, 6.0, 1.0, 0.5])
+}
+/// `lin`, or its round-value counterpart
+fn rlin(u: f64, lo: f64, hi: f64) -> f64 {
+    if round_mode() {
+        snap(u, lo, hi)
+    } else {
+        lin(u, lo, hi)
+    }
+}
+/// the double k units in the last place away from v (k may be negative; crosses zero through -0.0)
+fn ulps_from(v: f64, k: i64) -> f64 {
+    if !v.is_finite() || k == 0 {
+        return v;
+    }
+    let ord = |b: i64| b ^ ((((b >> 63) as u64) >> 1) as i64);
+    let o = ord(v.to_bits() as i64).saturating_add(k);
+    let r = f64::from_bits(ord(o) as u64);
+    if r.is_finite() {
+        r
+    } else {
+        v
+    }
+}
+/// deterministic small offset in -4..=4 ulp for point i of a batch (0 for one point in nine)
+fn ulp_offset(i: usize, v: f64) -> i64 {
+    let mut s = (i as u64).wrapping_mul(0x9E3779B97F4A7C15) ^ v.to_bits();
+    (splitmix(&mut s) % 9) as i64 - 4
+}
+
 /// cursor over the unit-interval parameter draws of a case; u = 0 is the "simplest" choice
 struct Cur<'a> {
     u: &'a [f64],
@@ -56,7 +129,7 @@ impl<'a> Cur<'a> {
     }
     fn lin(&mut self, lo: f64, hi: f64) -> f64 {
         let u = self.u();
-        lin(u, lo, hi)
+        rlin(u, lo, hi)
     }
     /// true with probability p; false when u = 0
     fn flag(&mut self, p: f64) -> bool {
@@ -153,6 +226,13 @@ struct Case {
     q: Vec<F>, // numbers the tolerance formula needs (operator specific)
     grids: Vec<GridSpec>,
     pts: Vec<P4>,
+    /// round-value case: the inverse-then-forward order additionally starts from the round
+    /// neighbours of the images (whole metres / the image itself and doubles a few ulp from it)
+    #[serde(default)]
+    round: bool,
+    /// additional starting tuples (in the output space) for the inverse-then-forward order
+    #[serde(default)]
+    ystart: Vec<P4>,
 }
 
 /// coordinate spaces, for measuring an error in ground metres
@@ -214,7 +294,40 @@ const KINDS: &[(&str, &str)] = &[
     // parameter pairs of which one takes precedence, given together
     ("merc", "lat_ts+k_0"), ("helmert", "mixed-spellings"), ("helmert", "static+epochs"),
     ("molodensky", "full-all"), ("molodensky", "abridged-all"), ("lcc", "2sp-equal"),
+    // the sexagesimal conversions as steps of a pipeline, and as the writing (inverted) last
+    // step behind a degree input: degrees -> radians -> DDDMM.mmm / DDDMMSS.sss and back
+    ("dm", "pipeline"), ("dms", "pipeline"),
+    ("dm-out", "geo:in"), ("dm-out", "adapt"), ("dm-out", "swap+convert"),
+    ("dms-out", "geo:in"), ("dms-out", "adapt"), ("dms-out", "swap+convert"),
 ];
+
+/// fields of a sexagesimal angle next to the carries of the encoding
+const CARRY_MINUTES: [f64; 6] = [0.0, 0.0, 1.0, 29.0, 30.0, 59.0];
+const CARRY_SECONDS: [f64; 6] = [0.0, 0.0, 1.0, 30.0, 59.0, 59.0];
+
+fn iso_forms(op: &str) -> Vec<String> {
+    match op {
+        "dm" | "dms" => vec![op.to_string(), format!("{op} | noop"), format!("noop | {op}"), format!("{op} | geo:out | geo:in")],
+        _ => {
+            let b = op.trim_end_matches("-out");
+            vec![
+                format!("geo:in | {b} inv"),
+                format!("adapt from=neuf_deg | {b} inv"),
+                format!("axisswap order=2,1 | unitconvert xy_in=deg xy_out=rad | {b} inv"),
+            ]
+        }
+    }
+}
+
+/// a valid DDDMM.mmm / DDDMMSS.sss number from whole fields (+ a decimal fraction of the last field)
+fn iso_encode(dms: bool, sign: f64, d: f64, m: f64, sec: f64, frac: f64) -> f64 {
+    if dms {
+        sign * (d * 10000.0 + m * 100.0 + sec + frac)
+    } else {
+        // the seconds become a decimal fraction of the minute: 0, 1/60 (rounded to 7 decimals), 0.5, ...
+        sign * (d * 100.0 + rd(m + sec / 60.0 + frac, 7).min(59.9999999))
+    }
+}
 
 /// operators of the library that the catalogue knows but does not round-trip, with the reason
 const NOT_ROUNDTRIPPED: &[(&str, &str)] = &[
@@ -250,13 +363,37 @@ fn perm_of(mut idx: usize, k: usize) -> Vec<usize> {
 }
 
 fn zt(p: &[f64; 5]) -> (f64, f64) {
-    let z = if p[2] < 0.4 { 0.0 } else { rd(lin(p[2], -500.0, 9000.0), 3) };
-    let t = if p[3] < 0.4 { 0.0 } else { rd(lin(p[3], 1985.0, 2035.0), 3) };
+    let z = if p[2] < 0.4 { 0.0 } else { rd(rlin(p[2], -500.0, 9000.0), 3) };
+    let t = if p[3] < 0.4 { 0.0 } else { rd(rlin(p[3], 1985.0, 2035.0), 3) };
     (z, t)
 }
 
 /// (lon, lat) in radians: lon within dlonmax of lon0, |lat| <= latmax (degrees), with boundary classes
 fn globe(p: &[f64; 5], lon0: f64, latmax: f64, dlonmax: f64) -> (f64, f64) {
+    if round_mode() {
+        // whole and half degrees, multiples of 6 (zone edges) and 15 degrees inside the same window
+        // (the longitude itself is round, not its offset from the central meridian), with the
+        // same boundary classes: the central meridian itself, the equator, the edges of the window
+        let mut lon = snap(p[0], lon0 - dlonmax, lon0 + dlonmax);
+        let mut lat = snap(p[1], -latmax, latmax);
+        if p[4] > 0.9 {
+            match ((p[4] - 0.9) * 100.0) as usize {
+                0 => lat = 0.0,
+                1 => lon = lon0,
+                2 => lat = latmax,
+                3 => lat = -latmax,
+                4 => lon = lon0 + dlonmax,
+                5 => lon = lon0 - dlonmax,
+                6 => {
+                    lat = 0.0;
+                    lon = lon0
+                }
+                7 => lat = -0.0,
+                _ => {}
+            }
+        }
+        return (lon.to_radians(), lat.to_radians());
+    }
     let mut dlon = lin(p[0], -dlonmax, dlonmax);
     let mut lat = lin(p[1], -latmax, latmax);
     if p[4] > 0.9 {
@@ -280,6 +417,10 @@ fn globe(p: &[f64; 5], lon0: f64, latmax: f64, dlonmax: f64) -> (f64, f64) {
 
 /// (lon, lat) in radians within rmax degrees (great circle on the sphere) of the centre (degrees)
 fn disc(p: &[f64; 5], lonc: f64, latc: f64, rmax: f64) -> (f64, f64) {
+    if round_mode() {
+        let (lon, lat) = disc_deg(p, lonc, latc, rmax);
+        return (lon.to_radians(), lat.to_radians());
+    }
     let az = 2.0 * PI * p[0];
     let mut d = rmax.to_radians() * p[1].sqrt();
     if p[4] > 0.96 {
@@ -289,6 +430,28 @@ fn disc(p: &[f64; 5], lonc: f64, latc: f64, rmax: f64) -> (f64, f64) {
     }
     let (lon, lat) = great_circle_direct(1.0, lonc.to_radians(), latc.to_radians(), az, d);
     (lon, lat.clamp(-FRAC_PI_2, FRAC_PI_2))
+}
+
+/// the same in degrees; in round-value mode the point is moved onto the nearest whole or half
+/// degree in both coordinates (the disc is shrunk by 1.5 steps first, so that it stays inside;
+/// the centre itself, when it is round, is hit exactly)
+fn disc_deg(p: &[f64; 5], lonc: f64, latc: f64, rmax: f64) -> (f64, f64) {
+    if !round_mode() {
+        let (lon, lat) = disc(p, lonc, latc, rmax);
+        return (lon.to_degrees(), lat.to_degrees());
+    }
+    let step = if rmax < 4.0 || p[4] < 0.3 { 0.5 } else { 1.0 };
+    let az = 2.0 * PI * p[0];
+    let mut d = (rmax.to_radians() * p[1].sqrt()).min((rmax - 1.5 * step).to_radians());
+    if p[4] > 0.96 {
+        d = 0.0; // the centre itself
+    }
+    let (lon, lat) = great_circle_direct(1.0, lonc.to_radians(), latc.to_radians(), az, d);
+    if d == 0.0 {
+        return (lonc, latc);
+    }
+    let r = |v: f64| (v / step).round() * step;
+    (r(lon.to_degrees()), r(lat.to_degrees()).clamp(-90.0, 90.0))
 }
 
 fn false_origin(c: &mut Cur, def: &mut String) {
@@ -386,8 +549,22 @@ impl GridSpec {
     }
     /// interior point (degrees): the central 80 % of the coverage
     fn interior(&self, p: &[f64; 5]) -> (f64, f64) {
-        let lat = self.lat_s.0 + (self.lat_n() - self.lat_s.0) * lin(p[1], 0.1, 0.9);
-        let lon = self.lon_w.0 + (self.lon_e() - self.lon_w.0) * lin(p[0], 0.1, 0.9);
+        let mut lat = self.lat_s.0 + (self.lat_n() - self.lat_s.0) * lin(p[1], 0.1, 0.9);
+        let mut lon = self.lon_w.0 + (self.lon_e() - self.lon_w.0) * lin(p[0], 0.1, 0.9);
+        if round_mode() {
+            // exactly on a row and/or a column of nodes of the central 80 % (the borders of the cells)
+            let node = |u: f64, n: u32| -> f64 {
+                let (lo, hi) = ((0.1 * (n - 1) as f64).ceil(), (0.9 * (n - 1) as f64).floor());
+                (lo + (u * (hi - lo + 1.0)).floor().min(hi - lo)).min((n - 1) as f64)
+            };
+            let which = (p[4] * 977.0) as usize % 4;
+            if which != 1 {
+                lat = self.lat_s.0 + self.dlat.0 * node(p[1], self.rows);
+            }
+            if which != 2 {
+                lon = self.lon_w.0 + self.dlon.0 * node(p[0], self.cols);
+            }
+        }
         (lon, lat)
     }
     /// a point (degrees) 0.1 .. 1.5 degrees outside the coverage, on any of the four sides
@@ -428,9 +605,9 @@ fn arbitrary_pt(p: &[f64; 5]) -> P4 {
         match ((p[4] * 40.0) as usize + k) % 40 {
             0 => 0.0,
             1 => -0.0,
-            2 => rd(lin(u, -3.2, 3.2), 9),
-            3 => rd(lin(u, -180.0, 180.0), 6),
-            _ => rd(lin(u, -1.0e7, 1.0e7), 4),
+            2 => rd(rlin(u, -3.2, 3.2), 9),
+            3 => rd(rlin(u, -180.0, 180.0), 6),
+            _ => rd(rlin(u, -1.0e7, 1.0e7), 4),
         }
     };
     p4(v(p[0], 0), v(p[1], 1), v(p[2], 2), v(p[3], 3))
@@ -482,7 +659,7 @@ fn build(raw: &Raw) -> Case {
                 .iter()
                 .map(|p| {
                     let mut v = arbitrary_pt(p);
-                    v[0] = F(if aspect == "integer" { lin(p[0], -1.0e7, 1.0e7).round() } else { rd(lin(p[0], -1.0e7, 1.0e7), 4) });
+                    v[0] = F(if aspect == "integer" { lin(p[0], -1.0e7, 1.0e7).round() } else { rd(rlin(p[0], -1.0e7, 1.0e7), 4) });
                     v
                 })
                 .collect();
@@ -663,12 +840,12 @@ fn build(raw: &Raw) -> Case {
                     } else if p[4] < 0.7 {
                         // near the surface of the Earth
                         let (lon, lat) = globe(p, 0.0, 90.0, 180.0);
-                        let xyz = El::grs80().cartesian(lon, lat, lin(p[2], -1000.0, 9000.0));
+                        let xyz = El::grs80().cartesian(lon, lat, rlin(p[2], -1000.0, 9000.0));
                         (rd(xyz[0], 4), rd(xyz[1], 4), rd(xyz[2], 4))
                     } else {
-                        (rd(lin(p[0], -1.0e7, 1.0e7), 4), rd(lin(p[1], -1.0e7, 1.0e7), 4), rd(lin(p[2], -1.0e7, 1.0e7), 4))
+                        (rd(rlin(p[0], -1.0e7, 1.0e7), 4), rd(rlin(p[1], -1.0e7, 1.0e7), 4), rd(rlin(p[2], -1.0e7, 1.0e7), 4))
                     };
-                    let t = if dynamic || p[3] > 0.5 { rd(lin(p[3], 1985.0, 2035.0), 2) } else { 0.0 };
+                    let t = if dynamic || p[3] > 0.5 { rd(rlin(p[3], 1985.0, 2035.0), 2) } else { 0.0 };
                     p4(x, y, z, t)
                 })
                 .collect();
@@ -682,7 +859,7 @@ fn build(raw: &Raw) -> Case {
                 .iter()
                 .map(|p| {
                     let (lon, lat) = globe(p, 0.0, 90.0, 180.0);
-                    let h = if aspect == "low" { lin(p[2], -1.0e4, 1.0e5) } else { lin(p[2], 1.0e5, 1.0e7) };
+                    let h = if aspect == "low" { rlin(p[2], -1.0e4, 1.0e5) } else { rlin(p[2], 1.0e5, 1.0e7) };
                     let h = if p[4] < 0.1 { 0.0 } else { rd(h * s, 4) };
                     p4(lon, lat, h, zt(p).1)
                 })
@@ -748,7 +925,7 @@ fn build(raw: &Raw) -> Case {
                 .iter()
                 .map(|p| {
                     let (lon, lat) = globe(p, 0.0, 85.0, 180.0);
-                    p4(lon, lat, if p[2] < 0.2 { 0.0 } else { rd(lin(p[2], -100.0, 9000.0), 3) }, zt(p).1)
+                    p4(lon, lat, if p[2] < 0.2 { 0.0 } else { rd(rlin(p[2], -100.0, 9000.0), 3) }, zt(p).1)
                 })
                 .collect();
         }
@@ -776,16 +953,57 @@ fn build(raw: &Raw) -> Case {
                 .iter()
                 .map(|p| {
                     let (lon, lat) = globe(p, 0.0, 90.0, 180.0);
-                    p4(lon, lat, rd(lin(p[2], -120.0, 9000.0), 4), zt(p).1)
+                    p4(lon, lat, rd(rlin(p[2], -120.0, 9000.0), 4), zt(p).1)
                 })
                 .collect();
         }
-        "dm" | "dms" => {
-            def = op.to_string();
+        "dm-out" | "dms-out" => {
+            // (lat, lon) in degrees -> radians -> written as DDDMM.mmm / DDDMMSS.sss
+            let forms = iso_forms(op);
+            def = forms[match aspect { "geo:in" => 0, "adapt" => 1, _ => 2 }].clone();
             pts = raw
                 .pts
                 .iter()
                 .map(|p| {
+                    let (z, t) = zt(p);
+                    if !round_mode() {
+                        let s = |w: f64| if w > 0.5 { -1.0 } else { 1.0 };
+                        return p4(s(p[2]) * lin(p[1], 0.0, 89.0), s(p[3]) * lin(p[0], 0.0, 179.0), z, t);
+                    }
+                    // whole degrees / minutes / seconds as typed in decimal degrees, and doubles a few ulp from them
+                    let angle = |u: f64, w: f64, dmax: f64, i: usize| -> f64 {
+                        let sign = if w > 0.5 { -1.0 } else { 1.0 };
+                        let d = if (w * 10.0) as usize % 5 == 0 { 0.0 } else { (u * dmax).floor() };
+                        let m = CARRY_MINUTES[((u * 8191.0).fract() * 6.0) as usize % 6];
+                        let sec = CARRY_SECONDS[((u * 131071.0).fract() * 6.0) as usize % 6];
+                        let v = d + m / 60.0 + sec / 3600.0;
+                        sign * ulps_from(v, ulp_offset(i, v))
+                    };
+                    p4(angle(p[1], p[2], 89.0, 1), angle(p[0], p[3], 179.0, 2), z, t)
+                })
+                .collect();
+        }
+        "dm" | "dms" => {
+            def = if aspect == "pipeline" { iso_forms(op)[1 + c.pick(3)].clone() } else { op.to_string() };
+            pts = raw
+                .pts
+                .iter()
+                .map(|p| {
+                    if round_mode() {
+                        // whole degrees (also zero), whole minutes, whole seconds, and the last
+                        // representable fraction below / first above a carry: all fields valid (< 60)
+                        let enc = |u: f64, w: f64, dmax: f64| -> f64 {
+                            let sign = if w > 0.5 { -1.0 } else { 1.0 };
+                            let d = if (w * 10.0) as usize % 5 == 0 { 0.0 } else { (u * dmax).floor() };
+                            let m = CARRY_MINUTES[((u * 8191.0).fract() * 6.0) as usize % 6];
+                            let sec = CARRY_SECONDS[((u * 131071.0).fract() * 6.0) as usize % 6];
+                            let tiny = if op == "dm" { 1.0e-7 } else { 1.0e-6 };
+                            let frac = [0.0, 0.0, 0.0, tiny, 1.0 - tiny, 0.5][((u * 524287.0).fract() * 6.0) as usize % 6];
+                            iso_encode(op == "dms", sign, d, m, sec, frac)
+                        };
+                        let (z, t) = zt(p);
+                        return p4(enc(p[1], p[2], 89.0), enc(p[0], p[3], 179.0), z, t);
+                    }
                     let enc = |u: f64, dmax: f64, w: f64| -> f64 {
                         let sign = if w > 0.5 { -1.0 } else { 1.0 };
                         let v = u * dmax; // degrees
@@ -816,11 +1034,12 @@ fn build(raw: &Raw) -> Case {
                 .pts
                 .iter()
                 .map(|p| {
-                    let mut lat = rd(lin(p[1], -89.0, 89.0), 7);
-                    let lon = rd(lin(p[0], -180.0, 180.0), 7);
-                    let mut az = rd(lin(p[2], -180.0, 180.0), 6);
+                    let mut lat = rd(rlin(p[1], -89.0, 89.0), 7);
+                    let lon = rd(rlin(p[0], -180.0, 180.0), 7);
+                    let mut az = rd(rlin(p[2], -180.0, 180.0), 6);
                     // distance 1 m .. 18 000 km (log-uniform), scaled to the size of the ellipsoid
-                    let d = rd(10f64.powf(lin(p[3], 0.0, 7.2553)) * s, 4);
+                    // (round-value mode: 1, 10, 100 ... metres and their square roots)
+                    let d = rd(10f64.powf(rlin(p[3], 0.0, 7.2553)) * s, 4);
                     match aspect {
                         "meridional" => az = if p[2] < 0.5 { 0.0 } else { 180.0 },
                         "equatorial" => {
@@ -830,7 +1049,7 @@ fn build(raw: &Raw) -> Case {
                         "short" => {
                             // very short lines: 1 um .. 10 m (log-uniform), exactly 0, all azimuths
                             // (incl. the cardinal ones) and latitudes (incl. the equator)
-                            let d = if p[4] > 0.95 { 0.0 } else { rd(10f64.powf(lin(p[3], -6.0, 1.0)) * s, 9) };
+                            let d = if p[4] > 0.95 { 0.0 } else { rd(10f64.powf(rlin(p[3], -6.0, 1.0)) * s, 9) };
                             if p[4] > 0.8 && p[4] <= 0.95 {
                                 az = [0.0, 90.0, 180.0, -90.0, -180.0][((p[4] - 0.8) / 0.15 * 5.0) as usize % 5];
                             }
@@ -849,7 +1068,7 @@ fn build(raw: &Raw) -> Case {
             return build_projection(raw, op, aspect, c, ell, a, f, el);
         }
     }
-    Case { op: op.into(), aspect: aspect.into(), def, macros, ell, a: F(a), f: F(f), q, grids: std::mem::take(&mut grids), pts }
+    Case { op: op.into(), aspect: aspect.into(), def, macros, ell, a: F(a), f: F(f), q, grids: std::mem::take(&mut grids), pts, round: round_mode(), ystart: vec![] }
 }
 
 #[allow(clippy::too_many_arguments)]
@@ -1093,7 +1312,7 @@ fn build_projection(raw: &Raw, op: &str, aspect: &str, mut c: Cur, mut ell: Stri
                 .iter()
                 .map(|p| {
                     let (lon, lat) = if list { mixed_coverage(&g, p) } else { g.interior(p) };
-                    p4(lon.to_radians(), lat.to_radians(), rd(lin(p[2], -100.0, 3000.0), 3), zt(p).1)
+                    p4(lon.to_radians(), lat.to_radians(), rd(rlin(p[2], -100.0, 3000.0), 3), zt(p).1)
                 })
                 .collect();
         }
@@ -1134,8 +1353,8 @@ fn build_projection(raw: &Raw, op: &str, aspect: &str, mut c: Cur, mut ell: Stri
                 .iter()
                 .map(|p| {
                     let (lon, lat) = if list { mixed_coverage(&g, p) } else { g.interior(p) };
-                    let xyz = el.cartesian(lon.to_radians(), lat.to_radians(), lin(p[2], -100.0, 3000.0) * a / EARTH_A);
-                    p4(xyz[0], xyz[1], xyz[2], rd(lin(p[3], 1985.0, 2035.0), 2))
+                    let xyz = el.cartesian(lon.to_radians(), lat.to_radians(), rlin(p[2], -100.0, 3000.0) * a / EARTH_A);
+                    p4(xyz[0], xyz[1], xyz[2], rd(rlin(p[3], 1985.0, 2035.0), 2))
                 })
                 .collect();
         }
@@ -1150,7 +1369,7 @@ fn build_projection(raw: &Raw, op: &str, aspect: &str, mut c: Cur, mut ell: Stri
         }
     }
     let aspect = if wrap { "wrap".to_string() } else { aspect.to_string() };
-    Case { op: op.into(), aspect, def, macros: vec![], ell, a: F(a), f: F(f), q, grids, pts }
+    Case { op: op.into(), aspect, def, macros: vec![], ell, a: F(a), f: F(f), q, grids, pts, round: round_mode(), ystart: vec![] }
 }
 
 /// grid files shipped with the library: (operator, path below geodesy/, definition tail, lat_s, lat_n, lon_w, lon_e)
@@ -1177,8 +1396,8 @@ fn build_file_case(raw: &Raw) -> Case {
         .pts
         .iter()
         .map(|p| {
-            let mut lat = lin(p[1], lat_s + 0.05 * (lat_n - lat_s), lat_n - 0.05 * (lat_n - lat_s));
-            let mut lon = lin(p[0], lon_w + 0.05 * (lon_e - lon_w), lon_e - 0.05 * (lon_e - lon_w));
+            let mut lat = rlin(p[1], lat_s + 0.05 * (lat_n - lat_s), lat_n - 0.05 * (lat_n - lat_s));
+            let mut lon = rlin(p[0], lon_w + 0.05 * (lon_e - lon_w), lon_e - 0.05 * (lon_e - lon_w));
             if name == "5458_with_subgrid.gsb" {
                 // the synthetic sub-grid (55..56 N, 12..14 E) is not continuous with its parent: the
                 // shift jumps at its border, where a shift of 0.016 degrees is not invertible. Stay
@@ -1209,10 +1428,10 @@ fn build_file_case(raw: &Raw) -> Case {
                 }
             }
             let (lat, lon) = (lat.to_radians(), lon.to_radians());
-            let h = rd(lin(p[2], -100.0, 3000.0), 3);
+            let h = rd(rlin(p[2], -100.0, 3000.0), 3);
             if op == "deformation" {
                 let xyz = el.cartesian(lon, lat, h);
-                p4(xyz[0], xyz[1], xyz[2], rd(lin(p[3], 1985.0, 2035.0), 2))
+                p4(xyz[0], xyz[1], xyz[2], rd(rlin(p[3], 1985.0, 2035.0), 2))
             } else {
                 p4(lon, lat, h, zt(p).1)
             }
@@ -1235,6 +1454,8 @@ fn build_file_case(raw: &Raw) -> Case {
         q: vec![],
         grids: vec![],
         pts,
+        round: round_mode(),
+        ystart: vec![],
     }
 }
 
@@ -1252,6 +1473,8 @@ fn spaces(op: &str) -> (Sp, Sp) {
         "latitude" => (Sp::Geo, Sp::AuxLat),
         "dm" => (Sp::Iso(false), Sp::Geo),
         "dms" => (Sp::Iso(true), Sp::Geo),
+        "dm-out" => (Sp::GeoDeg, Sp::Iso(false)),
+        "dms-out" => (Sp::GeoDeg, Sp::Iso(true)),
         "geodesic" => (Sp::GeodIn, Sp::GeodOut),
         "pipeline:geo" => (Sp::GeoDeg, Sp::Any),
         "pipeline:gis" => (Sp::GisDeg, Sp::Any),
@@ -1355,6 +1578,16 @@ fn lattice(sp: Sp, c: &Coor4D, el: &El) -> Coor4D {
         Sp::Raw => {
             for i in 0..4 {
                 o[i] = (c[i] * 1000.0).round() / 1000.0;
+            }
+        }
+        Sp::Iso(dms) => {
+            // 0.001 minutes / seconds; where that would round a field up to 60.000 (not a valid
+            // number, and not one the library wrote) the written number itself is kept
+            for i in 0..2 {
+                let r = (c[i] * 1000.0).round() / 1000.0;
+                let mut probe = Coor4D::origin();
+                probe[0] = r;
+                o[i] = if iso_fields_60(&[probe], dms) > 0 { c[i] } else { r };
             }
         }
         Sp::Any => {
@@ -1476,10 +1709,120 @@ fn tol_m(case: &Case, el: &El, x: &Coor4D) -> f64 {
         // the inverse iteration stops at |dphi| < 1e-10 and contracts with e^2
         "somerc" => 3.0e-10 * el.es() * el.a + 2.0e-7,
         // calibrated: 10 x the worst error seen in > 2e5 cases (evidence worst_m:*), below the class level
-        "tmerc" | "utm" | "merc" | "webmerc" | "latitude" | "dm" | "dms" => 2.0e-7,
+        "tmerc" | "utm" | "merc" | "webmerc" | "latitude" | "dm" | "dms" | "dm-out" | "dms-out" => 2.0e-7,
         "lcc" => 1.0e-6,
         "permtide" => 1.0e-10,
         _ => TOL_RIGOROUS,
+    }
+}
+
+/// round-value counterpart of `lattice`: the round neighbours of an image as starting tuples
+/// of the inverse-then-forward order.  Angles and tuples in unknown units: the image itself or a
+/// double up to 4 ulp from it (the image of a round input is where the carries and branch points
+/// of an encoding lie); metres: the nearest whole metre; plain numbers: the nearest integer;
+/// written sexagesimal numbers: the image itself (its neighbours need not be valid encodings)
+fn round_start(sp: Sp, i: usize, c: &Coor4D, el: &El) -> Option<Coor4D> {
+    let mut o = *c;
+    match sp {
+        Sp::Geo | Sp::AuxLat => {
+            o[0] = ulps_from(c[0], ulp_offset(i, c[0]));
+            o[1] = ulps_from(c[1], ulp_offset(i + 1_000_003, c[1])).clamp(-FRAC_PI_2, FRAC_PI_2);
+        }
+        Sp::Any | Sp::GeodOut | Sp::GeoDeg | Sp::GisDeg | Sp::GeodIn => {
+            for k in 0..(if sp == Sp::Any { 3 } else { 4 }) {
+                o[k] = ulps_from(c[k], ulp_offset(i + k * 1_000_003, c[k]));
+            }
+        }
+        Sp::Plane | Sp::Cart => {
+            if el.a < 1.0e6 {
+                return None; // a whole metre is a large angle on a small body
+            }
+            for k in 0..3 {
+                if c[k].is_finite() {
+                    o[k] = c[k].round();
+                }
+            }
+        }
+        Sp::Raw => {
+            for k in 0..4 {
+                if c[k].is_finite() {
+                    o[k] = c[k].round();
+                }
+            }
+        }
+        Sp::Iso(_) => {}
+    }
+    Some(o)
+}
+
+/// number of written sexagesimal numbers (elements 0 and 1) with a minutes or seconds field >= 60
+fn iso_fields_60(v: &[Coor4D], dms: bool) -> u64 {
+    let bad = |x: f64| {
+        let x = x.abs();
+        x.is_finite() && (x % 100.0 >= 60.0 || (dms && (x / 100.0).floor() % 100.0 >= 60.0))
+    };
+    v.iter().map(|c| bad(c[0]) as u64 + bad(c[1]) as u64).sum()
+}
+
+const CARRY_OPS: [&str; 4] = ["dm", "dms", "dm-out", "dms-out"];
+/// The carries of the sexagesimal encodings, enumerated: one case per (operator, form, whole
+/// degree D in 0..=180); its points are D (latitude: D mod 90) + M minutes + S seconds for the
+/// minutes in `minutes` and S in 0, 1, 30, 59, with both signs.  Radian side (what the writing
+/// direction gets): the angle converted with to_radians() and moved by -4..=4 ulp, and the
+/// angle moved by -2..=2 ulp in degrees and then converted.  Encoded side (what the reading
+/// direction gets): the valid numbers with exactly these fields, plus the last representable
+/// fraction below the next carry.
+fn build_carry(i: usize, minutes: &[f64]) -> Case {
+    let opi = i % 4;
+    let fi = (i / 4) % 4;
+    let deg = (i / 16) % 181;
+    let op = CARRY_OPS[opi];
+    let forms = iso_forms(op);
+    let def = forms[fi % forms.len()].clone();
+    let dms = op.starts_with("dms");
+    let (dlon, dlat) = (deg as f64, (deg % 90) as f64 + if deg == 180 { 90.0 } else { 0.0 });
+    let whole_only = deg == 180; // 180 E/W and the pole: no minutes beyond
+    let mut enc: Vec<P4> = vec![];
+    let mut rad: Vec<P4> = vec![];
+    let mut degs: Vec<P4> = vec![];
+    for &m in minutes {
+        for sec in [0.0, 1.0, 30.0, 59.0] {
+            let (m, sec) = if whole_only { (0.0, 0.0) } else { (m, sec) };
+            for sign in [1.0, -1.0] {
+                let (la, lo) = (dlat + m / 60.0 + sec / 3600.0, dlon + m / 60.0 + sec / 3600.0);
+                for frac in [0.0, if dms { 0.999999 } else { 0.9999999 }] {
+                    if frac > 0.0 && whole_only {
+                        continue;
+                    }
+                    enc.push(p4(iso_encode(dms, sign, dlat, m, sec, frac), iso_encode(dms, -sign, dlon, m, sec, frac), 0.0, 0.0));
+                }
+                for k in -4i64..=4 {
+                    rad.push(p4(sign * ulps_from(lo.to_radians(), k), -sign * ulps_from(la.to_radians(), -k).min(FRAC_PI_2), 100.0, 2020.0));
+                    rad.push(p4(-sign * ulps_from(lo.to_radians(), k), -sign * ulps_from(la.to_radians(), k).min(FRAC_PI_2), 0.0, 0.0));
+                    degs.push(p4(sign * ulps_from(la, k).min(90.0), -sign * ulps_from(lo, -k), 100.0, 2020.0));
+                    degs.push(p4(sign * ulps_from(la, k).min(90.0), sign * ulps_from(lo, k), 0.0, 0.0));
+                }
+                for k in [-2i64, -1, 1, 2] {
+                    rad.push(p4(sign * ulps_from(lo, k).to_radians(), sign * ulps_from(la, k).min(90.0).to_radians(), 0.0, 0.0));
+                }
+            }
+        }
+    }
+    let (a, f) = builtin("GRS80");
+    let out = op.ends_with("-out");
+    Case {
+        op: op.into(),
+        aspect: "carry".into(),
+        def,
+        macros: vec![],
+        ell: "GRS80".into(),
+        a: F(a),
+        f: F(f),
+        q: vec![],
+        grids: vec![],
+        pts: if out { degs } else { enc },
+        round: true,
+        ystart: if out { vec![] } else { rad },
     }
 }
 
@@ -1722,14 +2065,8 @@ fn check_with<C: Context>(ctx: &mut C, case: &Case, rec: &mut Rec) -> CaseResult
     let b = run_op(ctx, op, false, &a, def)?;
     judge.compare(rec, "forward then inverse", insp, &x0, &a, &b, None, true)?;
 
-    // ---- inverse, then forward, from the 1 mm lattice image
-    let y: Vec<Coor4D> = a.iter().map(|c| lattice(outsp, c, &el)).collect();
-    let x = run_op(ctx, op, false, &y, def)?;
-    let y2 = run_op(ctx, op, true, &x, def)?;
-    let ground = if outsp == Sp::Plane || outsp == Sp::Any { Some(jacobian_ground(ctx, op, def, insp, &el, &x0, &a, &y, &y2)?) } else { None };
-    judge.compare(rec, "inverse then forward (from the 1 mm lattice image)", outsp, &y, &x, &y2, ground.as_deref(), false)?;
-
     // ---- the inv modifier: `op inv` forward == `op` inverse, bit for bit (and vice versa)
+    let mut twins: Vec<(String, OpHandle)> = vec![];
     for after_name in [false, true] {
         if def.contains('|') || def.contains(" inv") {
             // `inv` after a pipeline text belongs to its last step: no twin to compare
@@ -1746,6 +2083,58 @@ fn check_with<C: Context>(ctx: &mut C, case: &Case, rec: &mut Rec) -> CaseResult
                 "'{defi}' is not the mirror image of '{def}' at point #{i} {}: '{def}' Fwd {} / Inv(of that) {}, '{defi}' Inv {} / Fwd {}",
                 fmt_c4(&x0[i]), fmt_c4(&a[i]), fmt_c4(&b[i]), fmt_c4(&ai[i]), fmt_c4(&bi[i])
             );
+        }
+        twins.push((defi, opi));
+    }
+
+    // ---- inverse, then forward: from the 1 mm lattice image; in a round-value case also from
+    // the round neighbours of the image; from the starting tuples the case brings along
+    let mut starts: Vec<(&str, Vec<Coor4D>)> = vec![("inverse then forward (from the 1 mm lattice image)", a.iter().map(|c| lattice(outsp, c, &el)).collect())];
+    if case.round {
+        rec.class("round-values");
+        match a.iter().enumerate().map(|(i, c)| round_start(outsp, i, c, &el)).collect::<Option<Vec<Coor4D>>>() {
+            Some(y) => {
+                rec.count("round_inverse_starts", y.len() as u64);
+                starts.push(("inverse then forward (from the round neighbours of the image: whole metres / doubles within 4 ulp)", y));
+            }
+            None => rec.count("round_inverse_starts_skipped_small_body", 1),
+        }
+    }
+    if !case.ystart.is_empty() {
+        if outsp == Sp::Plane || outsp == Sp::Any {
+            vfail!("harness-ystart-space", "starting tuples given for an output space that needs the Jacobian: {}", case.op);
+        }
+        rec.count("given_inverse_starts", case.ystart.len() as u64);
+        starts.push(("inverse then forward (from given tuples at the carries of the encoding)", c4s(&case.ystart)));
+    }
+    for (order, y) in &starts {
+        let x = run_op(ctx, op, false, y, def)?;
+        let y2 = run_op(ctx, op, true, &x, def)?;
+        let ground = if outsp == Sp::Plane || outsp == Sp::Any { Some(jacobian_ground(ctx, op, def, insp, &el, &x0, &a, y, &y2)?) } else { None };
+        judge.compare(rec, order, outsp, y, &x, &y2, ground.as_deref(), false)?;
+        for (defi, opi) in &twins {
+            let xi = run_op(ctx, *opi, true, y, defi)?;
+            let y2i = run_op(ctx, *opi, false, &x, defi)?;
+            if let Some(i) = first_bits_diff(&x, &xi).or(first_bits_diff(&y2, &y2i)) {
+                vfail!(
+                    format!("inv-twin:{}", case.op),
+                    "'{defi}' is not the mirror image of '{def}' at image #{i} {}: '{def}' Inv {} / Fwd(of that) {}, '{defi}' Fwd {} / Inv {}",
+                    fmt_c4(&y[i]), fmt_c4(&x[i]), fmt_c4(&y2[i]), fmt_c4(&xi[i]), fmt_c4(&y2i[i])
+                );
+            }
+        }
+        // the writing direction of the sexagesimal operators: how often a field of 60 was written
+        if let Sp::Iso(dms) = insp {
+            let k = iso_fields_60(&x, dms);
+            if k > 0 {
+                rec.count("iso_written_with_a_field_of_60", k);
+            }
+        }
+    }
+    if let Sp::Iso(dms) = outsp {
+        let k = iso_fields_60(&a, dms);
+        if k > 0 {
+            rec.count("iso_written_with_a_field_of_60", k);
         }
     }
 
@@ -1943,17 +2332,22 @@ fn build_pipeline(raw: &Raw) -> Case {
         .pts
         .iter()
         .map(|p| {
-            let (lon, lat) = disc(p, lonc, latc, 2.0);
-            let hgt = if p[2] < 0.3 { 0.0 } else { rd(lin(p[2], -100.0, 3000.0), 3) };
+            let hgt = if p[2] < 0.3 { 0.0 } else { rd(rlin(p[2], -100.0, 3000.0), 3) };
             let t = zt(p).1;
-            match ext {
-                "geo" => p4(lat.to_degrees(), lon.to_degrees(), hgt, t),
-                "gis" => p4(lon.to_degrees(), lat.to_degrees(), hgt, t),
-                _ => p4(lon, lat, hgt, t),
+            if ext == "rad" {
+                let (lon, lat) = disc(p, lonc, latc, 2.0);
+                return p4(lon, lat, hgt, t);
+            }
+            // (round-value mode: whole and half degrees as typed, not the radian round trip of them)
+            let (lon, lat) = disc_deg(p, lonc, latc, 2.0);
+            if ext == "geo" {
+                p4(lat, lon, hgt, t)
+            } else {
+                p4(lon, lat, hgt, t)
             }
         })
         .collect();
-    Case { op: format!("pipeline:{ext}"), aspect: format!("{aspect}/{label}"), def, macros, ell: first.into(), a: F(a), f: F(f), q: vec![F(tol), F(rsq)], grids: vec![], pts }
+    Case { op: format!("pipeline:{ext}"), aspect: format!("{aspect}/{label}"), def, macros, ell: first.into(), a: F(a), f: F(f), q: vec![F(tol), F(rsq)], grids: vec![], pts, round: round_mode(), ystart: vec![] }
 }
 
 
@@ -2037,6 +2431,47 @@ fn main() {
         "type-correct pipelines (external lat/lon degrees | lon/lat degrees | radians -> 0..2 datum shifts cart|helmert|cart inv -> optional projection utm/tmerc/merc/webmerc/lcc/laea/omerc/btmerc -> output adaptors), plain or wrapped in sub-chain / whole / nested / parameterised macros; points within 2 degrees of a random centre; tolerance = sum of the step tolerances; macro invocations also get the inv twin check",
         n,
         move || raw_strategy(1, maxpts).prop_map(|r| build_pipeline(&r)),
+        check,
+    );
+
+    // 4. round values: the same catalogue, pipelines and shipped grids with every parameter and
+    // coordinate draw snapped onto the values users type
+    let reps = run.scale(2, 24);
+    run.sweep(
+        "round-values",
+        "every catalogue entry x all 47 built-in ellipsoids + a random a,rf in round-value mode: parameters (lon_0, lat_0, lat_1/2, latc/lonc, alpha, false origins, shifts, rotations, epochs, dt) and coordinates are multiples of 15, 6, 1 or 0.5 of their unit inside the same ranges (whole and half degrees, zone edges, the central meridian and the centre themselves, equator, poles, whole metres, whole years, grid nodes; dm/dms: whole degrees/minutes/seconds, zero degrees, the last fraction below a carry); the inverse-then-forward order additionally starts from the round neighbours of the images (image +-0..4 ulp for angles, whole metres for plane and geocentric coordinates); non-trivial as above",
+        nk * 48 * reps,
+        move |i| {
+            let kind = i % nk;
+            let e = (i / nk) % 48;
+            in_round_mode(|| build(&raw_from_index(seed, 0x4000_0000 + i as u64, kind, if e == 47 { 47 + (i / (nk * 48)) % 9 } else { e }, npts)))
+        },
+        check,
+    );
+    let n = run.scale(2_000, 150_000);
+    run.sweep(
+        "pipelines-round",
+        "the typed pipelines / macros of section 'pipelines' in round-value mode: round centre, shifts and projection parameters, points on whole and half degrees (degree input exactly as typed) within 1.25 degrees of the centre, the centre itself; inverse starts also at the image +-0..4 ulp",
+        n,
+        move |i| in_round_mode(|| build_pipeline(&raw_from_index(seed, 0x5000_0000 + i as u64, 0, 0, npts))),
+        check,
+    );
+    let reps = run.scale(10, 150);
+    run.sweep(
+        "shipped-grids-round",
+        "the shipped grid files at whole and half degrees (and multiples of 6 and 15 degrees in the large model) inside the central 90 % of the coverage, whole metres and years",
+        nf * reps,
+        move |i| in_round_mode(|| build_file_case(&raw_from_index(seed, 0x6000_0000 + i as u64, i % nf, 0, npts))),
+        check,
+    );
+
+    // 5. the carries of the sexagesimal encodings, enumerated
+    let minutes: Vec<f64> = if run.is_thorough() { (0..60).map(|m| m as f64).collect() } else { vec![0.0, 1.0, 29.0, 30.0, 59.0] };
+    run.enumerate(
+        "sexagesimal-carry",
+        "dm, dms (plain, as first / last step of a pipeline, behind a degree round trip; inv twins) and `geo:in | dm inv`-like writers x every whole degree 0..=180 (latitude: mod 90, and the pole) x minutes (quick: 0, 1, 29, 30, 59; thorough: all) x seconds 0, 1, 30, 59 x both signs: written then read from the angle converted with to_radians() and moved by -4..=4 ulp, and moved by -2..=2 ulp in degrees before conversion; read then written from the valid encodings with exactly these fields and with the last fraction below the next carry; judged at 0.2 um like every other input of dm/dms",
+        4 * 4 * 181,
+        move |i| build_carry(i, &minutes),
         check,
     );
 
